@@ -191,7 +191,11 @@ def main(pid, tier='quick', seed=0, replay=None):
     proved = [r for r in results if r.status == 'proved']
     refuted = [r for r in results if r.status == 'refuted']
     unknown = [r for r in results if r.status in ('unknown', 'error')]
-    vacuous = [r for r in results if r.status == 'vacuous']
+    # path splitting duplicates a program point once per path (suffix #k); a point is vacuous only if it is unreachable on every path
+    import re as _re
+    _base = lambda n: _re.sub(r'#\d+$', '', n)
+    _alive = {_base(r.ob.name) for r in results if r.ob.kind == 'cover' and r.status != 'vacuous'}
+    vacuous = [r for r in results if r.status == 'vacuous' and _base(r.ob.name) not in _alive]
     violations = []
     known_hits = []
     os.makedirs(os.path.join(VERIF, 'replay', pid), exist_ok=True)
